@@ -109,14 +109,14 @@ func (s *Sched) doSend(t *thread, c *chanCore, v any) {
 	}
 	if c.cap > 0 {
 		slot := unsafe.Pointer(&c.slots[c.sendx])
-		RaceAcquire(slot)
-		RaceRelease(slot)
+		Acquire(slot)
+		Release(slot)
 		c.sendx = (c.sendx + 1) % c.cap
 		c.buf = append(c.buf, v)
 		return
 	}
 	// rendezvous: hand the value to the first waiting receiver
-	RaceReleaseMerge(unsafe.Pointer(&c.sync))
+	ReleaseMerge(unsafe.Pointer(&c.sync))
 	for _, r := range c.recvq {
 		if r != t && !r.completed {
 			idx := -1
@@ -151,8 +151,8 @@ func (t *thread) selIdxFor(i int) int {
 func (s *Sched) doRecv(t *thread, c *chanCore) (any, bool) {
 	if len(c.buf) > 0 {
 		slot := unsafe.Pointer(&c.slots[c.recvx])
-		RaceAcquire(slot)
-		RaceRelease(slot)
+		Acquire(slot)
+		Release(slot)
 		c.recvx = (c.recvx + 1) % c.cap
 		v := c.buf[0]
 		c.buf = c.buf[1:]
@@ -172,14 +172,14 @@ func (s *Sched) doRecv(t *thread, c *chanCore) (any, bool) {
 				w.completed, w.selIndex = true, idx
 				w.hb = mix(w.hb, t.hb)
 				w.unregister()
-				RaceAcquire(unsafe.Pointer(&c.sync))
-				RaceReleaseMerge(unsafe.Pointer(&c.sync))
+				Acquire(unsafe.Pointer(&c.sync))
+				ReleaseMerge(unsafe.Pointer(&c.sync))
 				return v, true
 			}
 		}
 	}
 	if c.closed {
-		RaceAcquire(unsafe.Pointer(&c.closeSync))
+		Acquire(unsafe.Pointer(&c.closeSync))
 		return nil, false
 	}
 	panic("vsched: recv enabled without sender")
@@ -200,7 +200,7 @@ func (ch *Chan[T]) Send(v T) {
 	c := ch.core
 	t := s.cur
 	if c.cap == 0 {
-		RaceReleaseMerge(unsafe.Pointer(&c.sync))
+		ReleaseMerge(unsafe.Pointer(&c.sync))
 		c.sendq = append(c.sendq, t)
 		t.waitSend = []sendWait{{c, v, -1}}
 	}
@@ -208,7 +208,7 @@ func (ch *Chan[T]) Send(v T) {
 	if t.completed {
 		// a receiver took the value while we were parked
 		t.completed = false
-		RaceAcquire(unsafe.Pointer(&c.sync))
+		Acquire(unsafe.Pointer(&c.sync))
 		return
 	}
 	t.unregister()
@@ -249,7 +249,7 @@ func (ch *Chan[T]) Recv2() (T, bool) {
 		t.completed = false
 		v, ok = t.val, t.ok
 		t.val = nil
-		RaceAcquire(unsafe.Pointer(&c.sync))
+		Acquire(unsafe.Pointer(&c.sync))
 	} else {
 		t.unregister()
 		v, ok = s.doRecv(t, c)
@@ -278,7 +278,7 @@ func (ch *Chan[T]) Close() {
 	if c.closed {
 		panic("close of closed channel")
 	}
-	RaceRelease(unsafe.Pointer(&c.closeSync))
+	Release(unsafe.Pointer(&c.closeSync))
 	c.closed = true
 }
 
@@ -456,7 +456,7 @@ func Select(cases ...SelCase) Sel {
 			if c.core != nil {
 				cells = append(cells, &c.core.id)
 				if c.core.cap == 0 {
-					RaceReleaseMerge(unsafe.Pointer(&c.core.sync))
+					ReleaseMerge(unsafe.Pointer(&c.core.sync))
 					c.core.sendq = append(c.core.sendq, t)
 					t.waitSend = append(t.waitSend, sendWait{c.core, c.val, i})
 				}
@@ -496,7 +496,7 @@ func Select(cases ...SelCase) Sel {
 		res := Sel{Index: t.selIndex, val: t.val, ok: t.ok}
 		t.val = nil
 		c := cases[res.Index]
-		RaceAcquire(unsafe.Pointer(&c.core.sync))
+		Acquire(unsafe.Pointer(&c.core.sync))
 		t.hb = mix(t.hb, uint64(res.Index)+0x5e1)
 		return res
 	}
